@@ -172,33 +172,42 @@ def m2(chk, repo):
             chk.require(ok, "C17-M2", f"{md.relpath}:transform_line_metadata ({pipe})", f"{k} is stored as datetime64[ns] ({d[d.find('data='):][:90]})",
                         f"{k} is stored through {conv or 'no datetime64 conversion'} ({d[d.find('data='):][:110]}): the line time is not kept as datetime64[ns] - the microsecond stamp loses resolution / stays an object array",
                         key=f"override:{k}", sample={"variable": k, "pipeline": pipe, "conversion": conv})
-    # unit literals on the attitude time path
-    at = repo.module(ATT).func("transform_time")
-    units = None
-    cands = list(at.own_nodes())
-    for nm in {x.id for x in at.own_nodes() if isinstance(x, ast.Name)}:
-        r = repo.resolve_name(at, nm)
-        if r.kind == "value" and len(r.exprs) == 1:
-            cands.append(r.exprs[0])  # a table hoisted to module level
-    for n in cands:
-        if isinstance(n, ast.Dict) and any(const_str(k) == "day_of_year" for k in n.keys):
-            units = {const_str(k): const_str(v) for k, v in zip(n.keys, n.values)}
-    if units is None:
-        raise AnalysisError(f"{at.module.relpath}:transform_time: no unit table for day_of_year / millisecond_of_day found; units of the attitude time components not decided")
-    chk.require(units.get("millisecond_of_day") == "ms" and units.get("day_of_year") == "D", "C17-M2", f"{at.module.relpath}:transform_time",
-                f"attitude time components use units {units}", f"attitude time components use units {units}: millisecond_of_day must be 'ms' and day_of_year 'D'", key="attitude:units")
-    final = [c for c in calls_in(at) if isinstance(c.func, ast.Attribute) and c.func.attr == "astype"]
-    ok = bool(final) and all(const_str(c.args[0]) in ("timedelta64[ns]", "timedelta64[us]", "timedelta64[ms]") for c in final if c.args)
-    narrow = [const_str(c.args[0]) for c in final if c.args and const_str(c.args[0]) in ("timedelta64[s]", "timedelta64[m]", "timedelta64[h]", "timedelta64[D]")]
-    chk.require(ok and not narrow, "C17-M2", f"{at.module.relpath}:transform_time", "the summed offset keeps at least millisecond resolution",
-                f"the summed offset is cast to {narrow or [norm(c) for c in final]}: milliseconds are truncated", key="attitude:final-unit")
-    fx = repo.module(LMD).func("fix_attitude_time")
-    ref = Flow(fx).single_def("reference_date")
-    txt = norm(ref) if ref is not None else ""
-    ok = "datetime64[ns]" in txt or "datetime64[us]" in txt or "datetime64[ms]" in txt
-    jan1 = "-01-01" in txt
-    chk.require(ok and jan1, "C17-M2", f"{fx.module.relpath}:fix_attitude_time", "attitude reference date is 1 January of the platform-position year at sub-second resolution",
-                f"attitude reference date is {short(ref, 70) if ref is not None else None}", key="attitude:reference")
+    m2_attitude(chk, repo, P)
+
+
+def m2_attitude(chk, repo, P):
+    """attitude times, from the conversion chain shape inference finds for /attitude/*/time of the leader pipeline (whatever the
+    shape of transform_time / fix_attitude_time): day_of_year counts days, millisecond_of_day milliseconds, the sum keeps at least
+    millisecond resolution and is added to 1 January of the platform-position year at sub-second resolution"""
+    from ..schema import flatten
+    sch = flatten(P.get("leader"))
+    keys = [k for k in sch if re.fullmatch(r"/attitude/\w+/time", k)]
+    if not keys:
+        raise AnalysisError("leader pipeline: no /attitude/*/time variable found by shape inference; the attitude time units are not decided")
+    COARSE = ("s", "m", "h", "D", "W", "M", "Y")
+    for k in keys:
+        d = sch[k]
+        where = f"{ATT.replace('.', '/')}.py:transform_time ({k})"
+        chain = d[d.find("data="):]
+        if "TOP(" in d:
+            raise AnalysisError(f"{k}: the conversion chain is not determined by shape inference ({chain[:120]}); not decided")
+        if "day_of_year" not in d or "millisecond_of_day" not in d:
+            chk.fail("C17-M2", where, f"{k} is no longer computed from both day_of_year and millisecond_of_day ({chain[:100]})", key=f"attitude:{k}:sources")
+            continue
+        deltas = re.findall(r"(?:np\.)?(?:asarray|array)\[timedelta64\[(\w+)\]\]", chain)
+        final = re.findall(r"astype\[timedelta64\[(\w+)\]\]", chain)
+        refs = re.findall(r"(?:np\.)?(?:asarray|array)\[datetime64\[(\w+)\]\]", chain)
+        if len(deltas) != 2 or len(refs) != 1:
+            raise AnalysisError(f"{k}: conversion chain {chain[:140]} is not of the recognised kind (two timedelta64 components added to one datetime64 reference); not decided")
+        chk.require(sorted(deltas) == ["D", "ms"], "C17-M2", where, f"day_of_year is read as days, millisecond_of_day as milliseconds ({k})",
+                    f"the attitude time components are read with units {deltas}: day_of_year must count 'D', millisecond_of_day 'ms'", key="attitude:units")
+        chk.require(not final or final[-1] not in COARSE, "C17-M2", where, f"the summed offset keeps at least millisecond resolution ({final[-1] if final else 'ms by promotion'})",
+                    f"the summed offset is cast to timedelta64[{final[-1] if final else ''}]: milliseconds are truncated", key="attitude:final-unit")
+        chk.require(refs[0] not in COARSE, "C17-M2", where, f"the reference date has sub-second resolution (datetime64[{refs[0]}])",
+                    f"the attitude reference date is datetime64[{refs[0]}]: adding the millisecond offsets to it truncates them", key="attitude:reference")
+        if "-01-01" not in chain:
+            raise AnalysisError(f"{k}: the reference date is not built from '<year>-01-01' ({chain[:140]}); which day the offsets count from is not decided")
+        chk.ok("C17-M2", where, "offsets count from 1 January of the platform-position year")
 
 
 def m3(chk, repo):
